@@ -20,6 +20,10 @@ impl Src {
 }
 
 #[cfg(not(kani))]
+pub static LAST_DRAWS: std::sync::Mutex<(Vec<String>, Vec<Vec<u8>>)> = std::sync::Mutex::new((Vec::new(), Vec::new()));
+#[cfg(not(kani))]
+pub fn reset_last_draws() { let mut g = LAST_DRAWS.lock().unwrap_or_else(|e| e.into_inner()); g.0.clear(); g.1.clear(); }
+#[cfg(not(kani))]
 pub enum Src {
     Bytes { data: Vec<Vec<u8>>, pos: usize, pub_log: Vec<String> },
     Rng { state: u64, pub_log: Vec<String>, raw: Vec<Vec<u8>> },
@@ -78,6 +82,8 @@ impl Src {
             _ => format!("{}", v),
         };
         match self { Src::Bytes { pub_log, .. } | Src::Rng { pub_log, .. } => pub_log.push(format!("{ty}={shown}")) }
+        // the draws of the sample in flight, readable from the watchdog thread of the native runner (a sample that does not return cannot hand back its Src)
+        { let mut g = LAST_DRAWS.lock().unwrap_or_else(|e| e.into_inner()); g.0.push(format!("{ty}={shown}")); g.1.push((0..n).map(|k| ((v >> (8 * k)) & 0xff) as u8).collect()); }
         if let Src::Rng { raw, .. } = self { raw.push((0..n).map(|k| (v >> (8 * k)) as u8).collect()); }
         v
     }
@@ -95,6 +101,7 @@ impl Src {
             Src::Rng { .. } => {
                 let v = lo + (self.next_raw() % span) as i64;
                 if let Src::Rng { raw, pub_log, .. } = self { raw.push((v as u64).to_le_bytes().to_vec()); pub_log.push(format!("i64={v}")); }
+                { let mut g = LAST_DRAWS.lock().unwrap_or_else(|e| e.into_inner()); g.0.push(format!("i64={v}")); g.1.push((v as u64).to_le_bytes().to_vec()); }
                 v
             }
             Src::Bytes { .. } => { let v = self.take(8, 64, "i64") as u64 as i64; if v < lo || v > hi { lo + (v.rem_euclid(span as i64)) } else { v } }
